@@ -21,7 +21,7 @@ Proof.
   rewrite Nat.eqb_refl, Z.eqb_refl, call_eqb_refl, outcome_eqb_refl, errval_eqb_refl. reflexivity.
 Qed.
 Lemma berr_eqb_refl : forall a, berr_eqb a a = true.
-Proof. destruct a; cbn; rewrite ?Z.eqb_refl, ?errval_eqb_refl; reflexivity. Qed.
+Proof. destruct a; cbn; rewrite ?Z.eqb_refl, ?errval_eqb_refl, ?eqb_reflx; reflexivity. Qed.
 Lemma bout_eqb_refl : forall a, bout_eqb a a = true.
 Proof. destruct a; cbn; rewrite ?berr_eqb_refl; reflexivity. Qed.
 Lemma eobs_eqb_refl : forall a, eobs_eqb a a = true.
